@@ -1,57 +1,81 @@
-(* Proof/ChanFlowRefuted.v -- the full release / abort statements and their refutations
-   (witness schedules from ChanFlowWit.v). *)
+(* Proof/ChanFlowRefuted.v -- the release / abort statements, and the witnesses that each of the
+   three repaired statements of channel.py is NECESSARY: with one of the shape flags of [params]
+   set to the old form (the code before 6aba4bf / daf1a85 / 7fa6a60) the statement is false
+   (witness schedules from ChanFlowWit.v; the same situations were reproduced on the real
+   HTTPChannel before the repairs and are re-found by checks/C12.py when a repair is reverted). *)
 From Coq Require Import List ZArith Bool Arith.
 From WV Require Import Lib.Conc Model.ChanFlow Proof.ChanFlow Proof.ChanFlowReq Proof.ChanFlowFlags
   Proof.ChanFlowAcct Proof.ChanFlowLive Proof.ChanFlowWit.
 Import ListNotations.
 Local Open Scope Z_scope.
 
-(* the full statement: whenever the I/O thread is idle (blocked in select, or spinning through
-   poll turns that change nothing) and the client reads, no producer is parked un-notified *)
+(* whenever the I/O thread is idle (blocked in select, or spinning through poll turns that change
+   nothing) and the client reads, no producer is parked un-notified *)
 Definition C12_release_statement (p : params) : Prop :=
   forall sched, let s := run p sched in
   io_idle p s = true -> client_reads s = true -> w_parked s = true -> False.
 
-Lemma release_partial : forall p,
-  1 <= hw p -> sb p <= hw p -> tail_safe p -> C12_release_statement p.
-Proof. intros p A B C sched. exact (release_idle p sched A B C). Qed.
+(* a producer parked while connected is False is being notified by handle_close right now *)
+Definition C12_abort_statement (p : params) : Prop :=
+  forall sched, let s := run p sched in
+  w_parked s = true -> connected s = false -> is_hcnotify (io s) = true.
 
-Lemma release_refuted_hw_zero :
-  exists p sched, hw p = 0 /\ tail_safe p /\
-    let s := run p sched in
-    quiescent s = true /\ io_blocked s = true /\ client_reads s = true /\ w_parked s = true
-    /\ total s = 0 /\ connected s = true.
+Lemma release_full : forall p, 0 <= hw p -> fixed p -> C12_release_statement p.
+Proof. intros p A B sched. exact (release_idle p sched A B). Qed.
+
+Lemma abort_full : forall p, 0 <= hw p -> fixed p -> C12_abort_statement p.
+Proof. intros p A B sched. exact (abort_notified p sched A B). Qed.
+
+(* before 6aba4bf (notify only if total < high_watermark): false at high_watermark = 0 (F23) ... *)
+Lemma release_refuted_old_notify_hw_zero :
+  exists p, hw p = 0 /\ fx_notify_le p = false /\ fx_drain p = true /\ fx_recheck p = true
+    /\ ~ C12_release_statement p
+    /\ exists sched, let s := run p sched in
+       quiescent s = true /\ client_reads s = true /\ w_parked s = true /\ total s = 0 /\ connected s = true.
 Proof.
-  exists p_f23, s_f23. destruct wit_hw_zero as (A & B & C & D & E & F & _ & G & _).
-  repeat split; auto. right; reflexivity.
+  exists p_f23. destruct wit_hw_zero as (A & B & C & D & E & F & _ & G & _).
+  split; [exact A|]. do 3 (split; [reflexivity|]). split.
+  - intros H. apply (H s_f23); [unfold io_idle; rewrite C; reflexivity | exact D | exact E].
+  - exists s_f23. repeat split; assumption.
 Qed.
 
-Lemma release_refuted_below_send_bytes :
-  exists p sched, 1 <= hw p /\ tail_safe p /\ ~ C12_release_statement p /\
-    let s := run p sched in
-    io_spinning p s = true /\ client_reads s = true /\ w_parked s = true /\ hw p < total s < sb p.
+(* ... and whenever the drain stops exactly at the mark, for 1 <= high_watermark < send_bytes *)
+Lemma release_refuted_old_notify_at_mark :
+  exists p, 1 <= hw p /\ fx_notify_le p = false /\ fx_drain p = true /\ fx_recheck p = true
+    /\ ~ C12_release_statement p
+    /\ exists sched, let s := run p sched in
+       io_spinning p s = true /\ client_reads s = true /\ w_parked s = true /\ total s = hw p.
 Proof.
-  exists p_spin, s_spin. destruct wit_below_send_bytes as (A & B & C & D & E & F & _).
-  split; [exact A|]. split; [right; reflexivity|]. split.
+  exists p_eq. destruct wit_at_mark as (A & B & C & D & E & _).
+  split; [exact A|]. do 3 (split; [reflexivity|]). split.
+  - intros H. apply (H s_eq); [unfold io_idle; rewrite B; apply orb_true_r | exact C | exact D].
+  - exists s_eq. repeat split; assumption.
+Qed.
+
+(* before daf1a85 (handle_write flushes only if total >= send_bytes while a task runs): false
+   whenever a producer can be parked with high_watermark < total < send_bytes *)
+Lemma release_refuted_old_drain :
+  exists p, 1 <= hw p /\ fx_notify_le p = true /\ fx_drain p = false /\ fx_recheck p = true
+    /\ ~ C12_release_statement p
+    /\ exists sched, let s := run p sched in
+       io_spinning p s = true /\ client_reads s = true /\ w_parked s = true /\ hw p < total s < sb p.
+Proof.
+  exists p_spin. destruct wit_below_send_bytes as (A & B & C & D & E & F & _).
+  split; [exact A|]. do 3 (split; [reflexivity|]). split.
   - intros H. apply (H s_spin); [unfold io_idle; rewrite B; apply orb_true_r | exact C | exact D].
-  - repeat split; auto.
+  - exists s_spin. repeat split; assumption.
 Qed.
 
-Lemma release_refuted_at_mark :
-  exists p sched, 1 <= hw p /\ tail_safe p /\
-    let s := run p sched in
-    io_spinning p s = true /\ client_reads s = true /\ w_parked s = true /\ total s = hw p.
+(* before 7fa6a60 (no re-test of connected under the lock): with lookahead >= 1 the service()-side
+   watermark wait parks a worker on a channel that is already closed *)
+Lemma abort_refuted_old_recheck :
+  exists p, 1 <= hw p /\ sb p <= hw p /\ fx_notify_le p = true /\ fx_drain p = true /\ fx_recheck p = false
+    /\ ~ C12_abort_statement p
+    /\ exists sched, let s := run p sched in
+       quiescent s = true /\ w_parked s = true /\ connected s = false /\ in_map s = false.
 Proof.
-  exists p_eq, s_eq. destruct wit_at_mark as (A & B & C & D & E & _).
-  repeat split; auto. right; reflexivity.
-Qed.
-
-Lemma abort_refuted_tail_race :
-  exists p sched, 1 <= hw p /\ sb p <= hw p /\
-    let s := run p sched in
-    quiescent s = true /\ w_parked s = true /\ connected s = false /\ in_map s = false
-    /\ is_hcnotify (io s) = false.
-Proof.
-  exists p_tail, s_tail. destruct wit_tail_race as (A & B & C & D & E & F & _).
-  repeat split; auto.
+  exists p_tail. destruct wit_tail_race as (A & B & C & D & E & F & _ & G).
+  split; [exact A|]. split; [exact B|]. do 3 (split; [reflexivity|]). split.
+  - intros H. specialize (H s_tail D E). cbv zeta in G. rewrite G in H. discriminate H.
+  - exists s_tail. repeat split; assumption.
 Qed.
